@@ -149,6 +149,16 @@ def non_interference_clause(chk, F):
                 def ev(it=it, label=label, cons=cons, mode=mode, free=free, key=key):
                     I, outs = H.run_method(F, it['key'], 'abstract', cons)
                     status, why = 'proved', ''
+                    # paths may split on an information-free part as long as the paths that differ only in it give the same
+                    # result: per result, the union of what the paths allow for that part must be everything
+                    by_result = {}
+                    for o in outs:
+                        if o.kind == 'return':
+                            from ..interp import val_key
+                            ent = by_result.setdefault(val_key(o.value), {'d1': VS.of([]), 'free': {}})
+                            ent['d1'] = ent['d1'].join(vs_of(H.D1, o.st.cons))
+                            for tok in free:
+                                ent['free'][tok] = ent['free'].get(tok, VS.of([])).join(vs_of(tok, o.st.cons))
                     for o in outs:
                         if o.kind != 'return':
                             status, why = ('refuted' if o.kind == 'panic' else 'unproven'), '%s outcome' % o.kind
@@ -158,8 +168,10 @@ def non_interference_clause(chk, F):
                             for tok in free:
                                 if tok in toks:
                                     status, why = 'refuted', 'result %r depends on the information-free %s' % (o.value, tok[1])
-                                if vs_of(tok, o.st.cons) != cons[tok]:
-                                    status, why = 'refuted', 'a branch depends on the information-free %s (refined to %r)' % (tok[1], vs_of(tok, o.st.cons))
+                                from ..interp import val_key
+                                allowed = by_result[val_key(o.value)]['free'][tok]
+                                if not cons[tok].subset(allowed):
+                                    status, why = 'refuted', 'the result depends on the information-free %s through a branch (this result only for %s in %r)' % (tok[1], tok[1], allowed)
                                 for p in o.st.preds:
                                     if tok[1] in repr(p):
                                         status, why = 'refuted', 'a recorded branch condition mentions %s' % tok[1]
@@ -168,9 +180,11 @@ def non_interference_clause(chk, F):
                                 b = T.bits_of(s.term, o.st.cons, 16)
                                 if b is None or any(x == T.UNK or x == ('b', H.D1, 3) for x in b):
                                     status, why = 'refuted', 'result %s depends on the reserved bit 3 of a last quarter frame' % H.describe(s, o.st.cons)
-                            v = vs_of(H.D1, o.st.cons)
-                            if v.s is None or any((x ^ 8) not in v.s for x in v.s):
-                                status, why = 'refuted', 'a branch distinguishes the reserved bit (d1 refined to %r)' % v
+                            from ..interp import val_key
+                            v = by_result[val_key(o.value)]['d1']
+                            vals = v.s if v.s is not None else (set(range(v.lo, v.hi + 1)) if v.hi - v.lo < 1024 else None)
+                            if vals is None or any((x ^ 8) not in vals for x in vals):
+                                status, why = 'refuted', 'the result depends on the reserved bit through a branch (this result only for d1 in %r)' % v
                     chk.ob(key, 'non-interference', status, subject=fn_subject(F, it['key']),
                            expected='independent of %s' % ([f[1] for f in free] if mode == 'bytes' else 'd1 bit 3'), found=[repr(o.value) for o in outs][:2], why=why)
                 guarded(chk, key, 'non-interference', ev)
